@@ -561,6 +561,8 @@ class Agent(dbus.service.Object):
 
             # Size left for transfer data
             remain_size = mtu - len(msg_head) - 8
+            if remain_size <= 0:
+                raise ValueError('MTU {} too small to segment transfer {}'.format(mtu, item.transfer_id))
 
             seg_idx = 0
             seg_offset = 0
